@@ -260,6 +260,24 @@ func VH19b_resize() {
 		return
 	}
 	verif.Reach("resized")
+	if rx != rcvopt(sock) {
+		// ... and then the same option on the sibling object (socket after context, context after socket), and a
+		// cancelled subscription on top: each object rebuilds its own queue, none trips over the other's
+		var sib rcvopt = sock
+		if optOn == rcvopt(sock) {
+			sib = rx
+		}
+		e2 := sib.SetOption(opt, v)
+		verif.Assert(e2 == nil || e2 == mangos.ErrBadOption, lab+"/"+opt+"/sibling-resize-error")
+		if proto == "sub" {
+			sock.SetOption(mangos.OptionSubscribe, []byte("zz"))
+			rx.SetOption(mangos.OptionSubscribe, []byte("zz"))
+			verif.Assert(sock.SetOption(mangos.OptionUnsubscribe, []byte("zz")) == nil, lab+"/unsubscribe-on-the-socket")
+			verif.Assert(rx.SetOption(mangos.OptionUnsubscribe, []byte("zz")) == nil, lab+"/unsubscribe-on-the-context")
+		}
+		verif.Quiesce()
+		verif.Reach("sibling-resized")
+	}
 	verif.Assert(p1.CloseCalls == 0 && !p1.Closed, lab+"/"+opt+"/peer-disconnected-by-queue-resize"+room)
 	// traffic after the resize still flows in the directions the pattern has
 	var m *mangos.Message
